@@ -439,6 +439,8 @@ def install(w):
         b = type_base(ty)
         if b == 'Option':
             return none()
+        if b == 'PhantomData':
+            return Agg('struct', 'PhantomData', [], [])
         m = M.get('default:' + b)
         if m is not None:
             return m(ex, ty)
@@ -610,6 +612,15 @@ def install(w):
     M['any::type_name'] = lambda ex, c, a: '<type_name>'
     M['<str as ToString>::to_string'] = lambda ex, c, a: deref(a[0])
     M['<String as Deref>::deref'] = ident
+
+    M['NonZero::get'] = lambda ex, c, a: deref(a[0])
+
+    def nonzero_new(ex, c, a):
+        z = ex.binop('Eq', a[0], Int(a[0].ty, 0))
+        if ex.branch(z, 'NonZero::new'):
+            return none()
+        return some(a[0])
+    M['NonZero::new'] = nonzero_new
 
     def size_of(ex, c, a):
         ty = generic_arg(c.mgenerics)
